@@ -208,3 +208,66 @@ def run(ctx):
     R.ob('C09.server', ('Drop for server InFlightRequests', 'aborts every running handler'), ok, 'dropping a channel aborts all of its still-running handlers (iterates the whole table)', [drop[0].loc(drop[0].d)] if drop else [])
     # server errors surface as items of the stream: the channel's poll_next never panics on a transport error
     R.count('functions_analysed', len(reach) + len(conv) + 6)
+
+    # ------------------------------------------------------------------ a transport failure is never swallowed (E-SHAPE)
+    from engine.shape import STAR, poll_outcome, is_ready_ok
+    from .shape_common import find_cell_accessors, run_jobs, server_chains, chain_name
+    dpoll = client_dispatch_poll(F)
+    acc, fields = find_cell_accessors(F, P, 'client::RequestDispatch', lambda t: t.startswith('std::option::Option<'))
+    cells = [((sorted(fields)[0], 'None'),), ((sorted(fields)[0], ('Some', STAR)),)] if fields else [()]
+    rp = S.requests_poll
+    chains = [c for c in server_chains(F) if len(c) <= (2 if ctx.tier == 'quick' else 3)]
+    jobs = [{'key': 'client', 'entry': dpoll.id, 'aut': ('custom', FailAut), 'acc': acc, 'cells': cells}]
+    for ch in chains:
+        jobs.append({'key': chain_name(ch), 'entry': rp.id, 'aut': ('custom', FailAut), 'chain': ch})
+    res = run_jobs(F, jobs)
+    for key, entry, name in [('client', dpoll, 'client dispatch poll')] + [(chain_name(ch), rp, 'Requests<%s>::poll_next' % chain_name(ch)) for ch in chains]:
+        r = res[key]
+        R.count('states_explored', r['stats'].get('states', 0))
+        bad = []
+        n_fail = 0
+        for (ret, e, lab) in r['exits']:
+            if not (isinstance(e[0], str) and e[0].startswith('F:')):
+                continue
+            n_fail += 1
+            is_err = 'Err' in repr(ret)
+            terminal = any(isinstance(v, tuple) and v and v[0] == 'Some' for _, v in e[1])
+            if not (is_err or terminal):
+                bad.append((repr(ret)[:40], e[0]))
+        R.ob('C09.report', (name, 'a failed transport operation ends the activation with an error'), not bad and n_fail >= 1,
+             'after a read, readiness, flush or close failure (or a failed cancel/response write) the entry point returns the error (or is delivering it): the failure is never dropped while work continues',
+             [entry.loc(entry.d)], 'exits that continue after a failure (return shape, which operation failed): %s' % sorted(set(bad))[:6])
+
+
+class FailAut:
+    """sticky: which transport operation failed in this activation (None if none).  A refused item (start_send Err) counts only where
+    the error is a channel error: cancel writes on the client, response writes on the server — i.e. every start_send except the
+    client's request write, which is recognised by the Q event that immediately precedes it."""
+    name = 'fail'
+
+    def init(self):
+        return None
+
+    def step(self, aut, ev, shape, site, X):
+        if isinstance(aut, str) and aut.startswith('F:'):
+            return aut
+        if ev[0] == 'R' and poll_outcome_is_err(shape):
+            return 'F:read'
+        if ev[0] == 'W':
+            if ev[1] in ('poll_ready', 'poll_flush', 'poll_close'):
+                if isinstance(shape, tuple) and shape[0] == 'Ready' and isinstance(shape[1], tuple) and shape[1][0] == 'Err':
+                    return 'F:' + ev[1]
+                return None if aut == 'q' and ev[1] != 'poll_ready' else aut
+            if ev[1] == 'start_send':
+                if isinstance(shape, tuple) and shape[0] == 'Err' and aut != 'q':
+                    return 'F:start_send'
+                return None
+        if ev[0] == 'Q' and 'Some' in repr(shape):
+            return 'q'      # the next start_send is the per-request write (its failure fails only that call)
+        if ev[0] in ('K', 'P') and 'Some' in repr(shape):
+            return None
+        return aut
+
+
+def poll_outcome_is_err(shape):
+    return isinstance(shape, tuple) and shape and shape[0] == 'Ready' and 'Err' in repr(shape)
